@@ -201,18 +201,17 @@ MANIFEST = {
     "technique": "Lean 4 theorems about a hand-written executable term model (M1) + differential correspondence with the real PoolSum through a line protocol + independent oracle on real objects",
     "design_ref": "DESIGN.md §3 C18, §2.3 M1",
     "text": (
-        "Proof. 15 kernel-checked theorems about the import-free model Ampverif.Model.Expr, which follows PoolSum.__new__/evaluate/doit/"
+        "Proof. Kernel-checked theorems about the import-free model Ampverif.Model.Expr, which follows PoolSum.__new__/evaluate/doit/"
         "free_symbols/cleanup/_eval_subs/_xreplace line by line: for EVERY summand (nested pool sums, sums, products, powers, function "
         "applications, folded nodes), every number of distinct index symbols, every rational pool (duplicates, singletons), every "
         "environment and every interpretation of the uninterpreted functions: value(evaluate) = nested finite sum = flat sum over "
-        "itertools.product (induction over the index list); value(doit) = value for every nesting depth; free symbols = free(summand) minus "
+        "itertools.product (induction over the index list); value(doit) = value for every nesting depth and doit with fuel >= nesting depth leaves no pool sum; free symbols = free(summand) minus "
         "indices and the value depends on them only; value(e) = (product of the pool sizes of unused indices) * value(cleanup e), hence "
         "cleanup preserves the value iff-style proviso 'unused indices have one value' (the real code violates the unconditional clause: known "
         "finding, witness theorem); subs of a non-index symbol by a term mentioning no index commutes with evaluate as an equality of terms; "
         "subs/xreplace of an index is the identity (sound variant); decide-witnesses for the unsound variant, for cleanup and for a repeated "
         "index symbol. Unbounded in all inputs. Excluded (hypotheses, probed on the real code and recorded): repeated index symbols, pools "
-        "mentioning index symbols, capturing substitutions. Not proved: that doit with enough fuel leaves no PoolSum (checked structurally by "
-        "the correspondence on every case)."
+        "mentioning index symbols, capturing substitutions."
     ),
     "level_note": (
         "Trusted: Lean kernel + Mathlib (axioms propext, Classical.choice, Quot.sound); the model is hand-written (not generated) and is tied to "
